@@ -237,7 +237,11 @@ class Program:
         out = {self.name: render(self)}
         for s in self.steps:
             if s.kind == "foreach" and s.sub is not None:
-                out.update(s.sub.files())
+                sub_files = s.sub.files()
+                if s.subfile and s.subfile != s.sub.name:
+                    # the loop step spells the file name differently (./x.yaml, a/../x.yaml): the file is registered as written
+                    sub_files[s.subfile] = sub_files.pop(s.sub.name)
+                out.update(sub_files)
         return out
 
     def all_plugin_steps(self, prefix=""):
